@@ -6,7 +6,7 @@ sys.path.insert(0, os.path.join(ROOT, 'mirsym')); sys.path.insert(0, HERE)
 import explore
 from engine import Engine, REPO
 from oracle import Oracle, hexs
-from nspec import strip_err
+from nspec import strip_err, resort
 
 class Query:
     def __init__(self, name, module, func, params, bound, max_paths=400000, budget_s=None):
@@ -21,7 +21,7 @@ def strip_all(j):
 
 def norm_native(reply):
     st, payload = reply
-    if st == 'ok': return ['ok', strip_all(payload)]
+    if st == 'ok': return ['ok', resort(strip_all(payload))]
     return [st, None]
 
 class Runner:
@@ -60,9 +60,13 @@ class Runner:
             if isinstance(ex, dict) and 'native' in ex:
                 nat = ex['native']
                 got = norm_native(self.oracle.ask(nat['op'], *nat['args']))
+                if nat.get('sorted') and got[0] == 'ok' and isinstance(got[1], str): got = ['ok', ''.join(sorted(got[1]))]
                 if 'project' in nat and got[0] == 'ok' and isinstance(got[1], dict):
                     got = ['ok', {k.rstrip('~'): (''.join(sorted(got[1].get(k.rstrip('~')) or '')) if k.endswith('~') else got[1].get(k)) for k in nat['project']}]
-                if got == nat['interp']: self.validated += 1
+                want = nat['interp']
+                if 'project' in nat and want[0] == 'ok' and isinstance(want[1], dict):
+                    want = ['ok', {k.rstrip('~'): want[1].get(k.rstrip('~')) for k in nat['project']}]
+                if got == resort(want): self.validated += 1
                 else:
                     self.diverged += 1
                     self.inconclusive.append({'query': q.name, 'why': 'interpreter/native divergence', 'request': nat, 'native': got})
